@@ -706,7 +706,7 @@ def _judge_query(kind, arg, answer, probes, static_we):
 
 def extra_C16(tier, seed, scratch, cfg, out):
     from . import model
-    hits, nscen, nsteps = [], (140 if tier == "quick" else 1500), 0
+    hits, nscen, nsteps = [], (420 if tier == "quick" else 3000), 0
     known_hits = []
     req_count, step_count, phantom_count = {}, {}, {}
     for i in range(nscen):
